@@ -58,6 +58,11 @@ type Contract struct {
 	// AtCall: obligations at every call of the named callee inside this function, stated over
 	// the callee's own parameter names
 	AtCall map[string][]*Clause
+	// AllocBound: every make([]T, n) executed by the function (inlined callees included) has n <= bound
+	AllocBound *Clause
+	// AtStore: obligations at every store to the named struct field ("Type.field") inside this
+	// function; `old` and `new` denote the value before and the value stored
+	AtStore map[string][]*Clause
 }
 
 func (c *Contract) Key() string {
@@ -156,7 +161,7 @@ func extractLines(path string) ([]rawLine, string, error) {
 }
 
 var declKeywords = []string{"func", "spec", "lemma", "axiom", "census", "guard", "ghost", "package", "trusted"}
-var clauseKeywords = []string{"atcall", "requires", "ensures", "modifies", "invariant", "decreases", "loop", "safe", "trusted", "inline", "for", "nooverflow", "mode", "uses", "induction", "pattern", "assert", "opt"}
+var clauseKeywords = []string{"allocbound", "atstore", "atcall", "requires", "ensures", "modifies", "invariant", "decreases", "loop", "safe", "trusted", "inline", "for", "nooverflow", "mode", "uses", "induction", "pattern", "assert", "opt"}
 
 func firstWord(s string) (string, string) {
 	s = strings.TrimSpace(s)
@@ -491,6 +496,28 @@ func parseFuncContract(pkgPath, path string, head rawLine, clauses []rawLine) (*
 				return nil, fmt.Errorf("%s:%d: %v", path, l.line, err)
 			}
 			curLoop.Decreases = e
+		case "atstore":
+			r := strings.TrimSpace(rest)
+			i := strings.Index(r, " requires ")
+			if i < 0 {
+				return nil, fmt.Errorf("%s:%d: atstore needs 'requires'", path, l.line)
+			}
+			fld := strings.TrimSpace(r[:i])
+			cl, err := parseClauseExpr(path, l, "atstore", r[i+10:], 0)
+			if err != nil {
+				return nil, err
+			}
+			if c.AtStore == nil {
+				c.AtStore = map[string][]*Clause{}
+			}
+			cl.Idx = len(c.AtStore[fld]) + 1
+			c.AtStore[fld] = append(c.AtStore[fld], cl)
+		case "allocbound":
+			cl, err := parseClauseExpr(path, l, "allocbound", rest, 1)
+			if err != nil {
+				return nil, err
+			}
+			c.AllocBound = cl
 		case "atcall":
 			// atcall Callee requires expr
 			r := strings.TrimSpace(rest)
